@@ -1,6 +1,7 @@
 (** Property C15 -- changed-line reports are sound.
     Only pinned statements, closed by [exact], with their assumptions printed. *)
 From Avt Require Import Oracles.Step Proofs.Inv Proofs.Dirty.
+From Avt Require Import Gen.VtFns Proofs.VtTie.
 From Avt Require Import Gen.BufFns Proofs.BufTie.
 
 (** Every control function marks every row whose cells it changes: the ghost invariant [DInv v0] (a row whose flag is clear has the cells it had at the previous report, and the height is unchanged) is preserved by every function from every state satisfying the invariant. (The premise is C04_print.) *)
@@ -42,3 +43,9 @@ Theorem C15_source_dirty_to_vec : forall d, g_dirty_to_vec d = Ok (dirty_to_vec 
 Proof. exact tie_dirty_to_vec. Qed.
 Check C15_source_dirty_to_vec : forall d, g_dirty_to_vec d = Ok (dirty_to_vec d 0).
 Print Assumptions C15_source_dirty_to_vec.
+
+(** Terminal::changes = to_vec then clear, regenerated skeleton *)
+Theorem C15_source_changes : forall t, changes t = fold_left (fun x st => interp_cstep st x) g_changes_skel (t, []).
+Proof. exact tie_changes. Qed.
+Check C15_source_changes : forall t, changes t = fold_left (fun x st => interp_cstep st x) g_changes_skel (t, []).
+Print Assumptions C15_source_changes.
